@@ -326,6 +326,19 @@ def shapes(tier, seed):
     ok('L:count-zero-variant-second:without-operand', cfgL(), {'mnemonic': 'rts', 'variant': 1, 'text': 'rts', 'uses': []})
     for k, text in enumerate(('hlt 5', 'hlt ra', 'ret ra', 'ret 1, 2', 'leave ra', 'leave 1, 2', 'hlt ,')):
         rej(f'L:count-zero-with-operands:{k}', cfgL(), text)
+    # M: every listed combination is tried: one that needs more written operands does not end the search, and an
+    # `empty` operand may stand first
+    R2 = lambda tag, reg: {'type': 'register', 'register': reg, 'bytecode': code(tag, 2)}  # noqa
+    insM = {'sf': {'bytecode': code('op_a', 4), 'operands': {'count': 2, 'specific_operands': {
+        'ab': {'list': {'r': R2('m_a', 'ra'), 'q': R2('m_b', 'rb')}},
+        'a_only': {'list': {'r': R2('m_c', 'ra'), 'e': {'type': 'empty', 'bytecode': code('m_d', 2)}}},
+        'e_first': {'list': {'e': {'type': 'empty', 'bytecode': code('m_e', 2)}, 'q': R2('m_f', 'rb')}}}}}}
+    cfgM = lambda: isa(instructions=insM)  # noqa
+    ok('M:first-listed-combination', cfgM(), {'mnemonic': 'sf', 'text': 'sf ra, rb', 'uses': [{'spec': 'ab', 'id': 'r'}, {'spec': 'ab', 'id': 'q'}]})
+    ok('M:combination-after-one-needing-more-operands', cfgM(), {'mnemonic': 'sf', 'text': 'sf ra', 'uses': [{'spec': 'a_only', 'id': 'r'}, {'spec': 'a_only', 'id': 'e'}]})
+    ok('M:combination-with-the-empty-operand-first', cfgM(), {'mnemonic': 'sf', 'text': 'sf rb', 'uses': [{'spec': 'e_first', 'id': 'e'}, {'spec': 'e_first', 'id': 'q'}]})
+    rej('M:no-listed-combination', cfgM(), 'sf rb, ra')
+    rej('M:no-operands-at-all', cfgM(), 'sf')
     rej('D:undeclared-register-form', cfgD2(), 't rb')
     rej('D:indirect-of-unlisted-register', cfgD2(), 't [ix]')
     rej('D:register-in-brackets-as-number', cfgD2(), 't [ra]')
